@@ -24,6 +24,7 @@ PROPS = {
     "C07": "vp.harness.c07_deser",
     "C08": "vp.harness.c08_offsets",
     "C09": "vp.harness.c09_refs",
+    "C10": "vp.harness.c10_namespace",
     "C11": "vp.harness.c11_xdef",
     "C12": "vp.harness.c12_const",
     "C13": "vp.harness.c13_robust",
